@@ -32,7 +32,7 @@ ASSUMPTIONS = [
     "rules do not appear in the JSON report (its documented element types are background/scenario); structure is compared modulo rules",
     "colours/terminal control sequences and timings are not compared",
 ]
-REQUIRED = {"events.grammar": {"quick": 600, "thorough": 30000}, "events.all_formatters_same_stream": {"quick": 600, "thorough": 30000},
+REQUIRED = {"wild.formatter_events_grammar": {"quick": 8, "thorough": 300}, "events.grammar": {"quick": 600, "thorough": 30000}, "events.all_formatters_same_stream": {"quick": 600, "thorough": 30000},
             "json.valid": {"quick": 300, "thorough": 15000}, "json.scenario_status": {"quick": 1500, "thorough": 80000},
             "json.step_result": {"quick": 3000, "thorough": 150000}, "pretty.coloured_terminal_shows_what_monochrome_prints": {"quick": 400, "thorough": 15000},
             "json.match_arguments_name_the_matched_text": {"quick": 2000, "thorough": 100000}, "json.readback": {"quick": 300, "thorough": 15000},
@@ -878,6 +878,10 @@ def run(spec, mon):
             names2 = [rng.choice(["json", "plain", "progress", "progress2", "progress3", "json.pretty", "rerun"])
                       for _ in range(rng.randint(1, 3))]
             run_case(lab, mon, case, names2, real_files=rng.randint(0, len(names2)))
+    if spec["shard"] == 0:
+        # behave's own acceptance features as workload: the probes of bvm.wild in every behave process they spawn
+        from ..wild import run as wild
+        wild.feed(mon, ID, spec.get("tier", "quick"))
 
 
 def replay(case, mon):
@@ -893,4 +897,4 @@ LEVEL_TEXT = ("Exploration: every built-in formatter of a random formatter list 
               "status on the element it belongs to, no result without a result event) and read back with JsonParser; "
               "plain, progress2 and progress3 text is parsed back and compared with the processed steps.")
 LEVEL_NOTE = "Trusted: the automaton and the text parsers in this module; generated shapes; rules are not part of the JSON schema."
-TECHNIQUE = "runtime monitoring: online trace-grammar checker over recorded formatter events + parsed-report vs model comparison"
+TECHNIQUE = "runtime monitoring: online trace-grammar checker over recorded formatter events + parsed-report vs model comparison; plus oracle-free invariant probes armed (sitecustomize) in every behave process that the repository's own acceptance features spawn"
